@@ -907,6 +907,12 @@ func main() {
 		scenarioLateNext(rng)
 		scenarioOptions()
 		scenarioDefaults()
+		const ms = time.Millisecond
+		// held answers: hundreds of ms between "held" and the deadline in either direction (shared, loaded machine)
+		scenarioDeadlines(40*ms, 600*ms, 400*ms, 80*ms, 80*ms)
+		scenarioDeadlines(40*ms, 600*ms, 400*ms, 850*ms, 0)
+		scenarioDeadlines(40*ms, 600*ms, 400*ms, 0, 650*ms)
+		scenarioDeadlines(40*ms, 3000*ms, 3000*ms, 0, 0) // the silent heartbeat against long session / rebalance time-outs
 	}
 	if only == "d8" {
 		scenarioD8(rng)
